@@ -13,6 +13,9 @@ import (
 func init() { register("C17", checkC17) }
 
 func checkC17(p *load.Program, r *kit.Report) {
+	importRules(p, r, "C11", "the marking survives Save/Load on every kind of store: load reads the stored list before any exit that can succeed, also the legacy-store exit through migrate", 1, nil, "RESTORE-INVALID-LIST")
+	importRules(p, r, "C01", "the fallback to the heaviest remaining chain must survive a restart: load selects the most-work branch, not the first one of the index (the trimmed main branch until the next consolidation)", 1,
+		func(o *kit.Obligation) bool { return strings.Contains(o.Construct, "Repository.load") }, "WRITERS")
 	importRules(p, r, "C09", "after the marked header was trimmed the header files still hold it and its descendants until the next save: range queries must not read above the tip", 3, nil, "TIP-BOUND")
 	importRules(p, r, "C10", "Branches.Trim finds the descendants of a trimmed branch by the identity of their parent pointers: Clean must re-attach every branch to the rebuilt branch objects, or a descendant of the marked header survives the trim and can become the best chain", 1,
 		func(o *kit.Obligation) bool { return strings.HasPrefix(o.Construct, "consolidate/") }, "COVER-ALL")
